@@ -385,6 +385,46 @@ pub fn run(ctx: &mut Ctx) {
         if env_bytes(&u1) != env_bytes(&u2) || env_bytes(&u1) != env_bytes(&u3) {
             ctx.violation("unsalted-not-deterministic", "salted=false gave different envelopes", replay());
         }
+        // the assertion offered in an obscured form (elided / compressed / encrypted subject): salted=false is
+        // still "the assertion is there once" (adding any form of a present assertion changes nothing), salted=true
+        // still attaches exactly one salt to what was given and independent saltings differ
+        {
+            let key = fresh_key(&mut rng);
+            let forms: Vec<(&str, Envelope)> = vec![("elided", plain.elide()), ("compressed", plain.compress().unwrap()), ("encrypted", plain.encrypt_subject(&key).unwrap())];
+            let with_plain = base.add_assertion_envelope(plain.clone()).unwrap();
+            for (label, form) in forms {
+                ctx.eval();
+                ctx.count("obscured_forms_offered_to_salted_adds");
+                let r = trap::guard(|| {
+                    let a = with_plain.add_assertion_envelope_salted(form.clone(), false)?;
+                    let b = with_plain.add_optional_assertion_envelope_salted(Some(form.clone()), false)?;
+                    let c = with_plain.add_assertions_salted(&[form.clone()], false);
+                    let s1 = base.add_assertion_envelope_salted(form.clone(), true)?;
+                    let s2 = base.add_assertion_envelope_salted(form.clone(), true)?;
+                    Ok::<_, anyhow::Error>((a, b, c, s1, s2))
+                });
+                match r {
+                    Ok(Ok((a, b, c, s1, s2))) => {
+                        let wp = env_bytes(&with_plain);
+                        if env_bytes(&a) != wp || env_bytes(&b) != wp || env_bytes(&c) != wp {
+                            ctx.violation(&format!("unsalted-add-of-present-form/{}", label), "adding (salted=false) another form of an assertion that is already present changed the envelope", replay());
+                        }
+                        check_spec(ctx, &a, "unsalted add of an obscured twin");
+                        for sx in [&s1, &s2] {
+                            let newly: Vec<Envelope> = sx.assertions().into_iter().filter(|x| !base.assertions().iter().any(|y| d32(y) == d32(x))).collect();
+                            if newly.len() != 1 || salts_of(&newly[0]).len() != 1 || d32(&newly[0].subject()) != d32(&plain) {
+                                ctx.violation(&format!("add_assertion_salted/obscured-form/{}", label), "a salted add of an assertion given in obscured form did not add exactly one element carrying exactly one salt over that assertion", replay());
+                            }
+                        }
+                        if d32(&s1) == d32(&s2) {
+                            ctx.violation(&format!("decorrelation/obscured-form/{}", label), "two independent salted adds of the same (obscured) assertion gave equal digests", replay());
+                        }
+                    }
+                    Ok(Err(err)) => ctx.violation(&format!("add_assertion_salted/obscured-form-err/{}", label), &format!("{}", err), replay()),
+                    Err(pn) => ctx.violation(&format!("add_assertion_salted/panic/{}", pn.signature()), &format!("{:?}", pn), replay()),
+                }
+            }
+        }
         ctx.sample(|| J::obj(vec![("case", J::i(case)), ("serialized_size", J::i(n as u64)), ("documented_range", J::s(format!("{:?}", doc_range(n))))]));
     }
 }
